@@ -4,7 +4,7 @@
    CENTRED data (what np.dot(values.T, values) works on). *)
 From Coq Require Import List Reals Permutation QArith.
 From FDAV Require Import Base.Num Base.Vec Base.Quad Model.Stats Gen.Consts
-  Lemmas.Vec Lemmas.Gram Lemmas.Stats Lemmas.NoiseConst Lemmas.CovPerm.
+  Lemmas.Vec Lemmas.Gram Lemmas.Stats Lemmas.NoiseConst Lemmas.CovPerm Lemmas.CovShift.
 Import ListNotations.
 Local Open Scope R_scope.
 
@@ -45,6 +45,12 @@ Print Assumptions C09_cov_perm.
 
 (* smoothed covariances remain symmetric because symmetrisation is applied LAST: it makes
    any matrix symmetric and leaves a symmetric one unchanged *)
+(* ... and of the LEVEL of the curves: adding the same function to every curve changes nothing (the covariance is
+   computed from the centred curves — a one-pass formula would agree only up to cancellation error) *)
+Theorem C09_cov_shift_invariant : forall m (c : list R) X, X <> [] -> length c = m -> Forall (fun r => length r = m) X ->
+  cov opsR m (map (fun r => vadd opsR r c) X) = cov opsR m X.
+Proof. exact cov_shift. Qed.
+Print Assumptions C09_cov_shift_invariant.
 Theorem C09_symmetrise_symmetric : forall n S i j, (i < n)%nat -> (j < n)%nat ->
   ent (symmetrise opsR n S) i j = ent (symmetrise opsR n S) j i.
 Proof. exact symmetrise_symmetric. Qed.
